@@ -101,6 +101,72 @@ func init() {
 	})
 }
 
+// TestC09OpenCells: process code built around every operator x operand-type cell the
+// documented table does NOT list. Compile normally rejects it (then nothing is
+// asserted here); whatever Compile accepts must run without crashing.
+func TestC09OpenCells(t *testing.T) {
+	seedNote(t)
+	st := NewStats("C09", "cells", "exhaustive: every binary operator x operand-type pair and unary operator x type that the documented table does not list (incl. the cell bool (- * / %) number), as a `set` source and as a return value, in a transform and in a predicate; Compile may reject (nothing asserted) but accepted code must run on two texts without panicking; every case non-trivial, distinct by source")
+	st.Exhaustive = true
+	defer st.Write()
+	types := []PType{TString, TNumber, TBool}
+	var exprs []*Expr
+	for _, op := range binaryOps {
+		for _, lt := range types {
+			for _, rt := range types {
+				if res, _ := TypeOfBin(op, lt, rt); res != TError {
+					continue
+				}
+				l, _ := typedOperand(lt, false)
+				r, _ := typedOperand(rt, false)
+				exprs = append(exprs, Bin(op, l, r))
+				// the same cell with computed operands
+				if lt == TBool {
+					exprs = append(exprs, Bin(op, Bin("==", Var("match", TString), Str("a")), r))
+				}
+			}
+		}
+	}
+	for _, op := range unaryOps {
+		for _, tp := range types {
+			if TypeOfUn(op, tp) != TError {
+				continue
+			}
+			o, _ := typedOperand(tp, false)
+			exprs = append(exprs, Un(op, o))
+		}
+	}
+	for _, e := range exprs {
+		es := exprString(e, true)
+		for _, src := range []string{
+			"set f to transform set v to " + es + " return 'x' end replace all any with f",
+			"set f to transform return '' + ( " + es + " ) end replace all any with f",
+			"set p to pattern any begin set v to " + es + " return true end find all p",
+		} {
+			st.Eval()
+			v, err, p := CompileSafe(src)
+			if p != nil {
+				c := CrashCase{Src: src, Text: "ab"}
+				Fail(t, Failure{Property: "C09", Kind: "crash", What: "Compile panicked on " + src + ": " + p.Sig(), Case: c, Sig: p.Sig()})
+			}
+			if err != nil {
+				st.Count("rejected_by_compile")
+				st.NonTrivial(src, func() any { return map[string]any{"src": src, "compile": "rejected"} })
+				continue
+			}
+			st.Count("accepted_by_compile")
+			for _, text := range []string{"ab", "5"} {
+				res := RunSafe(v, text, vmLimitCrash)
+				if res.Panic != nil {
+					c := CrashCase{Src: src, Text: text}
+					Fail(t, Failure{Property: "C09", Kind: "crash", What: fmt.Sprintf("%s on %q: accepted by Compile, but Run panicked: %s", src, text, res.Panic.Sig()), Case: c, Sig: res.Panic.Sig()})
+				}
+			}
+			st.NonTrivial(src, func() any { return map[string]any{"src": src, "compile": "accepted"} })
+		}
+	}
+}
+
 func TestC09(t *testing.T) {
 	seedNote(t)
 	StartWatchdog("C09", 90*time.Second)
